@@ -43,7 +43,7 @@ ENGINES = ["harness", "refsem", "canon"]
 ASSUMPTIONS = ["xv.refsem implements the MLIR semantics of the generated operations",
                "external calls are deterministic functions of their arguments whose calls are observable (logged)",
                "index is 64 bits wide"]
-JOB_TIMEOUT = {"quick": 600, "thorough": 3600}
+JOB_TIMEOUT = {"quick": 900, "thorough": 7200}
 
 PASSES = ["canonicalize", "constant-fold-interp", "test-constant-folding", "test-specialised-constant-folding", "cse"]
 N_INPUTS = 8
@@ -350,12 +350,23 @@ def classify_raise(pass_name, exc):
                 return "raise:constant-fold-interp:AssertionError:negative-shift-amount", detail
             if et in ("MemoryError", "OverflowError") and op.name == "arith.shli" and sraw[1] >= (1 << 31):
                 return "raise:constant-fold-interp:MemoryError:huge-shift-amount", detail
-            if et == "VerifyException" and op.name == "arith.shli" and 0 <= sraw[1] and \
-                    not _in_signless_range(sraw[0] << min(sraw[1], 1 << 22), w):
-                return "raise:constant-fold-interp:VerifyException:shli-result-not-wrapped", detail
+            if et in ("VerifyException", "ValueError") and op.name == "arith.shli" and 0 <= sraw[1] and \
+                    qual == "IntegerType.verify_value" and not _in_signless_range(sraw[0] << min(sraw[1], 1 << 22), w):
+                # ValueError: the out-of-range message itself cannot be formatted (> 4300 digits)
+                return f"raise:constant-fold-interp:{et}:shli-result-not-wrapped", detail
             if et == "VerifyException" and op.name == "arith.floordivsi" and w > 1 and \
                     sraw == [-(1 << (w - 1)), -1]:
                 return generic + ":min-div-minus-one", detail
+            return generic, detail
+        if pass_name == "canonicalize" and et == "OverflowError":
+            for fr in frames:
+                if fr.f_code.co_name == "_fold_const_operation":
+                    val, lhs = fr.f_locals.get("val"), fr.f_locals.get("lhs")
+                    tn = type(getattr(lhs, "type", None)).__name__
+                    fmax = {"Float32Type": 3.4028234663852886e+38, "Float16Type": 65504.0}.get(tn)
+                    detail["value"], detail["type"] = repr(val), tn
+                    if isinstance(val, float) and fmax and math.isfinite(val) and abs(val) > fmax:
+                        return "raise:canonicalize:OverflowError:float-fold-result-overflows-narrow-type", detail
             return generic, detail
         if pass_name in ("test-constant-folding", "test-specialised-constant-folding"):
             op = None
@@ -513,6 +524,13 @@ def run_case(cx: Ctx, text, kind, argtypes, inputs, passes, tag=""):
             key = f"verify:{pn}:{type(e).__name__}:{_verify_class(m2)}"
             cx.viol(key, f"output of {pn} does not verify: {msg}", wit(pn, output=str(m2)[:4000], message=msg))
             continue
+        bad_attr = _invalid_constant(m2)
+        if bad_attr:
+            # the op verifier does not re-verify attribute values; a constant built by hand may violate its own invariant
+            cx.count(f"output_invalid_constant:{pn}")
+            cx.viol(f"verify:{pn}:constant-attribute:{bad_attr[0]}", f"output of {pn} holds an invalid constant: {bad_attr[1]}",
+                    wit(pn, output=str(m2)[:4000], message=bad_attr[1]))
+            continue
         canon1 = canon_ir(m2)
         triggered = canon1 != canon0
         if triggered:
@@ -566,6 +584,17 @@ def run_case(cx: Ctx, text, kind, argtypes, inputs, passes, tag=""):
                 cx.res["samples"].append({"pass": pn, "program": text, "after": str(m2), "inputs_compared": compared})
 
 
+def _invalid_constant(module):
+    for op in module.walk():
+        if op.name == "arith.constant":
+            try:
+                op.properties["value"].verify()
+            except Exception as e:  # noqa: BLE001
+                msg = (str(e).strip().splitlines() or [""])[-1][:160]
+                return (_verify_class(module), msg)
+    return None
+
+
 def _verify_class(module):
     """does the unverifiable output contain an integer constant outside its type's range?"""
     from xv import refsem
@@ -582,7 +611,7 @@ def _verify_class(module):
 
 # ------------------------------------------------------------------------------------------- plan / work / finish
 def plan(tier, seed):
-    shards, per = (32, 64) if tier == "quick" else (64, 1200)
+    shards, per = (32, 48) if tier == "quick" else (64, 1500)
     return [{"kind": "gen", "seed": seed * 100003 + i, "n": per} for i in range(shards)]
 
 
